@@ -7,7 +7,7 @@ from lib.callgraph import CallGraph
 from lib import codec
 from rules import structs_common as S
 from rules.c09 import decoder_key
-from rules.c11 import check_cbor_bstr, enc_key
+from rules.c11 import check_cbor_bstr, check_is_empty, enc_key
 from spec.rfc8152 import STRUCTS, KDF_STRUCTS, MESSAGE_TYPES, STRUCTURES, ROUTING
 
 REGISTER = True
@@ -117,6 +117,7 @@ def check(ctx):
 
     # ---- R-3 -----------------------------------------------------------------------------------------------------
     check_cbor_bstr(ctx, "R-3")
+    check_is_empty(ctx, "R-3")
 
     # ---- R-4 nobody re-encodes --------------------------------------------------------------------------------------
     cb = "header::ProtectedHeader::cbor_bstr"
@@ -158,7 +159,7 @@ def check(ctx):
     roots += [f.key for f in prog.real_fns() if f.name in ("verify_signature", "verify_detached_signature", "verify_tag", "decrypt",
                                                               "tbs_data", "tbs_detached_data", "tbm", "aad")
               or f.name.startswith(("create_", "try_create_", "add_created", "add_detached", "try_add_"))]
-    reach = cg.reachable([r for r in roots if r in prog.fns])
+    reach = {cg.def_of(k) for k in cg.reachable([r for r in roots if r in prog.fns])}
     offenders = []
     for k in sorted(reach):
         f = prog.fns[k]
@@ -201,12 +202,34 @@ def check(ctx):
         f = prog.fn(sfn)
         pv = Prov(f)
         r, why = codec.array_passed_to_writer(f, pv)
-        ok = False
-        if r:
-            prot = [e for e in r[1] if any(is_call(s, cb) for s in subterms(e["term"]))]
-            others = [e for e in r[1] if any(is_call(s) and ("to_vec" in s[1] and "CborSerializable" in s[1] or s[1].endswith("::to_cbor_value")) for s in subterms(e["term"]))]
-            ok = len(prot) >= 1 and not others
-        ctx.ob("R-4", "structure-slot:%s" % sfn, ok, "%s takes every protected slot from cbor_bstr and serialises no header itself" % sfn, where=f.span)
+        problems = []
+        if not r:
+            problems.append(why)
+        else:
+            ph_params = [i for i in range(f.arg_count) if PH in f.local_ty(i + 1)]
+            for i in ph_params:
+                P = ("param", i)
+                opt = f.local_ty(i + 1).startswith("core::option::Option<")
+                src = ("field", ("variant", P, "Some"), "0") if opt else P
+                users = [e for e in r[1] if any(s == P for s in subterms(e["term"]))]
+                good = [e for e in users if is_call(e["term"], S.EXPECT_R) and is_call(e["term"][2][0], cb) and e["term"][2][0][2] == (src,)]
+                if len(users) != 1 or len(good) != 1:
+                    problems.append("parameter %d (a protected header) must feed exactly one slot, as cbor_bstr(<it>); found %s" % (
+                        i, [show(e["term"])[:60] for e in users]))
+                # no element may be selected by looking INTO the header (e.g. `if hdr.is_empty() {h''} else {..}`)
+                for e in r[1]:
+                    for c in e["conds"]:
+                        subj = c[0]
+                        if subj == ("discr", P):
+                            continue
+                        if any(s == P for s in subterms(subj)):
+                            problems.append("a slot is chosen by inspecting protected-header parameter %d: %s" % (i, show(subj)[:80]))
+            others = [e for e in r[1] if any(is_call(s) and ("CborSerializable" in s[1] and "to_vec" in s[1] or s[1].endswith("::to_cbor_value")) for s in subterms(e["term"]))]
+            if others:
+                problems.append("the function serialises a header itself")
+        ctx.ob("R-4", "structure-slot:%s" % sfn, not problems,
+               "%s takes every protected slot from cbor_bstr of the corresponding parameter, unconditionally, and serialises no header itself" % sfn,
+               where=f.span, detail={"problems": problems})
 
     # ---- R-5 ------------------------------------------------------------------------------------------------------
     n = 0
@@ -231,7 +254,7 @@ def check(ctx):
             ctx.ob("R-5", "stored-header-handed-over:%s" % f.key, not bad,
                    "%s hands %s a clone of a carrier's stored protected header" % (f.key, sfn.split("::")[-1]), where=f.where(bb),
                    detail={"problems": bad})
-    ctx.floor("R-5", "structure call sites", n, 14)
+    ctx.floor("R-5", "structure call sites", n, 8)
 
 
 def _arg_ty(f, op):
